@@ -106,6 +106,22 @@ func runC17(c *core.Ctx) {
 		rates = append(rates, rate{float64(f), true, false})
 	}
 	rates = append(rates, rate{1, true, false}, rate{2, true, false}, rate{3, true, false}, rate{7, true, false}, rate{999983, true, false}, rate{1000000, true, false})
+	// "round" rates: powers of two and their neighbours, powers of ten, and the
+	// multiples of the two audio base rates up to the DSD range
+	for k := 2; k <= 22; k++ {
+		rates = append(rates, rate{float64(int64(1) << k), true, false})
+		if k%4 == 3 {
+			rates = append(rates, rate{float64(int64(1)<<k - 1), true, false}, rate{float64(int64(1)<<k + 1), true, false})
+		}
+	}
+	for _, f := range []float64{10, 100, 1000, 10000, 100000} {
+		rates = append(rates, rate{f, true, false})
+	}
+	for _, base := range []float64{44100, 48000} {
+		for _, m := range []float64{3, 5, 6, 10, 12, 16, 24, 32, 48, 100} {
+			rates = append(rates, rate{base * m, true, false})
+		}
+	}
 
 	for ri, rt := range rates {
 		if !c.Mine(ri) {
